@@ -12,9 +12,10 @@ from harness import wsh
 from harness.core import Ctx
 
 
-def run_history(ctx: Ctx, idx, ops, uid_pool=None, extra_hook=None):
+def run_history(ctx: Ctx, idx, ops, uid_pool=None, extra_hook=None, project=None):
     path = ctx.scratch / f"ws_{ctx.prop_id}_{idx}.geoh5"
-    s = wsh.Session(path, uid_pool=uid_pool)
+    s = wsh.Session(path, uid_pool=uid_pool, project=project)
+    ctx.count("project-node-named-" + project if project else "project-node-default-name")
     try:
         for op in ops:
             try:
@@ -179,8 +180,11 @@ def run_props(ctx: Ctx, want, weights=None, n_quick=60, n_thorough=1500, max_ops
             ops = wsh.gen_ops(ctx.rng, ctx.rng.randrange(*max_ops), weights=weights, pool_uids=pool)
             if shape:
                 ops = shape(ctx.rng, ops)
-        s = run_history(ctx, i, ops, uid_pool=uid_pool, extra_hook=hook)
+        project = "PROJECT" if i % 5 == 4 else None
+        s = run_history(ctx, i, ops, uid_pool=uid_pool, extra_hook=hook, project=project)
         case = {"ops": ops, "pool": pool}
+        if project:
+            case["project"] = project
         kinds = [e.split(" ")[0] for e in s.events]
         ctx.case(case, nontrivial=any(k in ("move", "remove_ws", "remove_parent", "copy") for k in kinds) and "close" in kinds)
         for k in kinds:
@@ -199,7 +203,7 @@ def replay_props(ctx: Ctx, payload, want, hook=None, post=None):
     case = payload["case"]
     pool = case.get("pool", 0)
     uid_pool = [uuid.UUID(int=1000 + j) for j in range(pool)] if pool else None
-    s = run_history(ctx, 0, case["ops"], uid_pool=uid_pool, extra_hook=hook)
+    s = run_history(ctx, 0, case["ops"], uid_pool=uid_pool, extra_hook=hook, project=case.get("project"))
     ctx.case(case, True)
     compare(ctx, [s], [case])
     standard_oracles(ctx, s, case, want)
